@@ -599,6 +599,32 @@ func structuralLadders() []ladder {
 	for i, l := range L {
 		out[i] = ladder{name: l.name, max: l.max, build: l.build}
 	}
+	// Depths BEYOND the decoder's documented nesting limit (10000): on a tree that enforces the limit these are cheap
+	// (an mlr: error after 10001 levels), so they are climbed directly instead of through the budgeted powers of ten -
+	// a limit that is not enforced for one kind of collection shows as a stack overflow around 2*10^6 levels.
+	// (largest first: where the limit is NOT enforced a rung just above it is parsed in full and exhausts the budget,
+	// which would stop the climb before the depth that overflows the stack)
+	beyond := []int{3000000, 300000, 30000, 10001}
+	out = append(out,
+		ladder{name: "json-map-nest-beyond-limit", max: 3000000, depths: beyond, build: func(d int) ([]string, string) {
+			return []string{"--ijson", "--ojsonl", "cat"}, rep(`{"a":`, d) + "1" + rep("}", d)
+		}},
+		ladder{name: "json-map-unclosed-beyond-limit", max: 3000000, depths: beyond, build: func(d int) ([]string, string) {
+			return []string{"--ijson", "--ojsonl", "cat"}, rep(`{"a":`, d)
+		}},
+		ladder{name: "json-array-nest-beyond-limit", max: 3000000, depths: beyond, build: func(d int) ([]string, string) {
+			return []string{"--ijson", "--ojsonl", "cat"}, `{"a":` + rep("[", d) + "1" + rep("]", d) + "}"
+		}},
+		ladder{name: "json-alternating-nest-beyond-limit", max: 3000000, depths: beyond, build: func(d int) ([]string, string) {
+			return []string{"--ijson", "--ojsonl", "cat"}, rep(`{"a":[`, d) + "1" + rep("]}", d)
+		}},
+		ladder{name: "jsonl-map-nest-beyond-limit", max: 3000000, depths: beyond, build: func(d int) ([]string, string) {
+			return []string{"--ijsonl", "--ojsonl", "cat"}, rep(`{"a":`, d) + "1" + rep("}", d) + "\n"
+		}},
+		ladder{name: "json-decode-map-nest-beyond-limit", max: 3000000, depths: beyond, build: func(d int) ([]string, string) {
+			return []string{"--inidx", "--ifs", "\x01", "--ojsonl", "put", "-q", `print typeof(json_decode($1))`}, rep(`{"a":`, d) + "1" + rep("}", d) + "\n"
+		}},
+	)
 	return out
 }
 
